@@ -222,6 +222,41 @@ func (w *World) checkRootHandling(P string, f *Facts, r *Roles, ef *ExecFacts) {
 					}
 				}
 			})
+			// (c') the same through a loop variable: P is a phi that is fed by Parent() calls (a climb written as a loop)
+			if axis == "following" || axis == "following-sibling" || axis == "preceding" || axis == "preceding-sibling" {
+				allInstrs(fn, func(in ssa.Instruction) {
+					c2, ok := in.(*ssa.Call)
+					if !ok {
+						return
+					}
+					rcv, ok := isMethodCall(c2, "Children")
+					if !ok {
+						return
+					}
+					ph, isPhi := rcv.(*ssa.Phi)
+					if !isPhi {
+						return
+					}
+					fromParent := false
+					for _, e := range ph.Edges {
+						if _, isP := isMethodCall(e, "Parent"); isP {
+							fromParent = true
+						}
+					}
+					if !fromParent {
+						return
+					}
+					bad := false
+					for _, pt := range posTests(c2.Block()) {
+						if pt.Recv == ssa.Value(ph) {
+							bad = true
+						}
+					}
+					n5c++
+					w.check(P, "R01.5c", fmt.Sprintf("axis %s: sibling enumeration in %s (climbing loop)", axis, fn.Name()), c2.Pos(), !bad,
+						fmt.Sprintf("P.Children() of the parent reached by the climb is enumerated under a test of P.Pos(): %v (then children of the root get no siblings/following/preceding nodes)", bad))
+				})
+			}
 			// (b) ancestor axes: appended cursor not excluded by its own Pos() test
 			if axis == "ancestor" || axis == "ancestor-or-self" {
 				allInstrs(fn, func(in ssa.Instruction) {
